@@ -238,6 +238,93 @@ fn e2e(x: &Interface<'_>, tree: &GIface, rep: &mut Report) {
     }
 }
 
+// ---- descriptions produced by the derive macros, with doc comments of every awkward shape -------------
+#[allow(dead_code)]
+mod derived {
+    use zlink_core::introspect::{CustomType, ReplyError, Type};
+
+    /// A plain sentence.
+    ///
+    /// * bullet
+    /// *  aligned bullet
+    /// *   deeper   bullet with   inner   blanks
+    ///   indented continuation
+    /// - dash item
+    ///	tab-indented
+    /// trailing blanks   
+    /// # looks like a heading
+    /// ## and another #
+    #[derive(CustomType)]
+    #[zlink(crate = "zlink_core")]
+    pub struct Documented {
+        /// * starts with a star
+        pub a: i64,
+        ///   leading blanks
+        ///
+        /// after an empty line
+        pub b: Option<String>,
+        /// `code` and "quotes" and (parens: int) -> (x)
+        pub c: Vec<Inner>,
+        pub undocumented: bool,
+    }
+
+    /** block comment, one line */
+    #[derive(CustomType)]
+    #[zlink(crate = "zlink_core")]
+    pub struct Inner {
+        /// *
+        pub x: f64,
+    }
+
+    /// State of things
+    #[derive(CustomType)]
+    #[zlink(crate = "zlink_core")]
+    pub enum Plain {
+        On,
+        Off,
+    }
+
+    /// Inline use
+    #[derive(Type)]
+    #[zlink(crate = "zlink_core")]
+    pub struct InlineObj {
+        // (no doc comments here: comments inside inline types are outside what C14 speaks of)
+        pub f: i64,
+        pub g: std::collections::HashMap<String, Option<Vec<i64>>>,
+    }
+
+    /// *  the errors
+    #[derive(ReplyError)]
+    #[zlink(crate = "zlink_core")]
+    pub enum Errs {
+        /// * first
+        /// *  second, aligned
+        NotFound,
+        ///  - why
+        Denied {
+            /// *  the path
+            path: String,
+            reason: Option<String>,
+        },
+        /// wrapped
+        Wrapped(InlineObj),
+    }
+
+    pub fn interface() -> zlink_core::idl::Interface<'static> {
+        use zlink_core::idl::{Field, Interface, Method};
+        let f = |n: &'static str, t| Field::new_owned(n, t, vec![]);
+        let methods = vec![Method::new_owned(
+            "Use",
+            vec![f("d", <Documented as Type>::TYPE.clone()), f("o", <InlineObj as Type>::TYPE.clone()), f("p", <Plain as Type>::TYPE.clone())],
+            vec![f("r", <Option<Vec<InlineObj>> as Type>::TYPE.clone())],
+            vec![],
+        )];
+        let types = vec![<Documented as CustomType>::CUSTOM_TYPE.clone(), <Inner as CustomType>::CUSTOM_TYPE.clone(), <Plain as CustomType>::CUSTOM_TYPE.clone()];
+        let errors = <Errs as ReplyError>::VARIANTS.iter().map(|e| (*e).clone()).collect();
+        Interface::new_owned("org.example.derived-docs", methods, types, errors, vec![])
+    }
+}
+
 pub fn run(cfg: &Cfg) -> Report {
     let mut rep = Report::new("C14", "c14");
     let miri = cfg.layer == "miri";
@@ -282,6 +369,16 @@ pub fn run(cfg: &Cfg) -> Report {
         let t = from_iface(d);
         roundtrip(d, &t, "org.varlink.service", &mut rep);
         e2e(d, &t, &mut rep);
+    }
+    // an interface assembled from derive-built pieces whose doc comments have every awkward shape
+    {
+        let d = derived::interface();
+        let mut t = from_iface(&d);
+        // the doc comments of a derived inline type sit inside an inline type: outside what C14 speaks of
+        crate::idl::strip_comments_inside_inline_types(&mut t);
+        roundtrip(&d, &t, "derived-with-awkward-docs", &mut rep);
+        e2e(&d, &t, &mut rep);
+        rep.sample(6, || json!({"derived": d.to_string()}));
     }
     rep
 }
